@@ -60,6 +60,12 @@ BIGKEYS = ["k%03d" % i for i in range(300)]
 S8 = {"flavor": "int", "kind": "intcountervec", "keys": [], "maxid": 0, "threads": ["t1", "t2", "t3"], "budget": 20000,
       "pre": [W(k, 0) for k in BIGKEYS],
       "scripts": {"t1": [RS], "t2": [CO, CO], "t3": [W("zz", 1), HI(1, 1), CO]}}
+# a HUGE vector (over a thousand children) that only grows while it is collected: nothing is ever removed, so every child that
+# exists before the threads start is in every collection exactly once, whatever else happens
+HUGEKEYS = ["h%04d" % i for i in range(1100)]
+S9 = {"flavor": "int", "kind": "intcountervec", "keys": [], "maxid": 0, "threads": ["t1", "t2"], "budget": 40000, "stable": True,
+      "pre": [W(k, 0) for k in HUGEKEYS],
+      "scripts": {"t1": [CO, CO], "t2": [W("zz", 1), HI(1, 1), W("aa", 0), HI(0, 2)]}}
 INVS = "LockSafety OneChildPerKey FreshHandleIsCurrent IdsBounded"
 
 
@@ -117,6 +123,26 @@ def run_scenario(ctx, exe, sc, label, stats, samples, model=True, nrandom=0, kin
             if len(ctx.drift) < 5:
                 ctx.drift.append({"scenario": label, "job": x["id"], "drift": x["drift"]})
         h = history_of(x)
+        if sc.get("stable"):
+            # corollary of LinVec for keys that exist throughout and are never touched: each is collected exactly once with its value
+            # unchanged.  Checked here, after which those keys (independent of all others) are left out of what LinVec has to search
+            stable = {o["key"] for o in sc["pre"]} - {o.get("key") for t in sc["scripts"].values() for o in t}
+            bad = None
+            for c in h["calls"]:
+                if c["k"] == "collect":
+                    cnt = {}
+                    for k, v in c["res"]:
+                        cnt[k] = cnt.get(k, 0) + 1
+                    dup = sorted(k for k in cnt if cnt[k] > 1)
+                    miss = sorted(k for k in stable if k not in cnt)
+                    if dup or miss:
+                        bad = "a collection by %s shows %d children twice (e.g. %s) and misses %d that exist throughout (e.g. %s)" % (c["t"], len(dup), dup[:2], len(miss), miss[:2])
+                        break
+                    c["res"] = [[k, v] for k, v in c["res"] if k not in stable]
+            if bad:
+                ctx.violation("collect-not-a-set-of-children", "scenario %s on a %s, schedule %s: %s" % (label, x["kind"], x["id"], bad), rp)
+                continue
+            h["calls"] = [c for c in h["calls"] if not (c["t"] == "pre" and c.get("key") in stable)]
         key = json.dumps(h, sort_keys=True)
         if key not in seen:
             seen[key] = (h, x)
@@ -166,12 +192,14 @@ def run(ctx):
         run_scenario(ctx, exe, S3, "S3", stats, samples, nrandom=100, kinds=["countervec"])
         run_scenario(ctx, exe, S6, "S6", stats, samples, nrandom=300, kinds=["intcountervec"])
         run_scenario(ctx, exe, S8, "S8", stats, samples, model=False, check=False, nrandom=40, kinds=["intcountervec"], pb=(2, 40))
+        run_scenario(ctx, exe, S9, "S9", stats, samples, model=False, check=False, nrandom=6, kinds=["intcountervec"], pb=(1, 24))
         # composition: a vector of HISTOGRAMS (children are sharded histograms, updates are observe calls)
         run_scenario(ctx, exe, S2, "S2h", stats, samples, model=False, check=False, nrandom=150, kinds=["histogramvec"])
     else:
         for sc, lb in ((S1, "S1h"), (S2, "S2h"), (S3, "S3h"), (S6, "S6h")):
             run_scenario(ctx, exe, sc, lb, stats, samples, model=False, check=False, nrandom=3000, kinds=["histogramvec"])
         run_scenario(ctx, exe, S8, "S8", stats, samples, model=False, check=False, nrandom=1500, kinds=["intcountervec", "countervec"], pb=(2, 1500))
+        run_scenario(ctx, exe, S9, "S9", stats, samples, model=False, check=False, nrandom=100, kinds=["intcountervec", "countervec"], pb=(2, 600))
         run_scenario(ctx, exe, S6, "S6", stats, samples, nrandom=3000, kinds=["intcountervec", "countervec"])
         run_scenario(ctx, exe, S7, "S7", stats, samples, model=False, nrandom=10000, kinds=["intcountervec"])
         run_scenario(ctx, exe, S1, "S1", stats, samples, nrandom=2000, kinds=["intcountervec"])
